@@ -8,6 +8,9 @@ COMMON_TRUSTED = [
 PROPS = {
     "C02": {
         "level": "proof",
+        "level_text": "Verus discharges representation-invariant and whole-view postconditions of the real coalescing-queue operations for all queue contents and lengths, including epoch wrap-around",
+        "level_note": "trusted: Verus+Z3, extractor rewrite rules, vstd specs of std collections, listed shims; key type obeys the Eq/Hash/Clone model; composition across the byte channel and Recon key equality (C15) assumed",
+        "technique": "contract-based deductive verification: Verus on mechanically extracted real functions",
         "components": [
             {"kind": "vx", "unit": "event_queue"},
         ],
@@ -18,5 +21,25 @@ PROPS = {
             "Recon-equality of key text (C15) is assumed to be an equivalence refining byte equality",
         ],
         "trusted_base": COMMON_TRUSTED,
+    },
+    "C17": {
+        "level": "proof",
+        "level_text": "Kani proves per-operation contracts of vote/rescind/drop/poll and the constructor on the real code for every party count 2..8, every flag word and voted state (loops closed by unwinding assertions), so the state invariant and the told-unanimous/told-pending guarantees hold for every operation order",
+        "level_note": "sequential atomics: each operation linearises at its single successful RMW; memory orderings and the async callers that act on the results are not checked",
+        "technique": "contract-based verification: Kani/CBMC full-domain contract harnesses on the real crate",
+        "components": [
+            {"kind": "kx", "name": "timeout_coord", "package": "swimos_runtime", "crate_dir": "runtime/swimos_runtime",
+             "attach": "src/timeout_coord/mod.rs", "harness_file": "kx/swimos_runtime/timeout_coord.rs",
+             "quick_harnesses": [r".*_2", r".*_3", r".*_8"],
+             "functions": [{"fn": f, "file": "runtime/swimos_runtime/src/timeout_coord/mod.rs"} for f in
+                           ["multi_party_coordinator", "Voter::vote", "Voter::rescind", "<Voter as Drop>::drop", "<Receiver as Future>::poll"]],
+             "assumptions": ["Kani executes atomics sequentially: each operation is taken to be atomic at its single successful RMW; memory orderings (Relaxed/Release/Acquire) are not checked",
+                             "futures::task::AtomicWaker is executed as real code (not stubbed)"]},
+        ],
+        "assumptions": [
+            "operations of different parties are linearised at their single successful atomic read-modify-write (fetch_or / compare_exchange); weak-memory effects are not modelled",
+            "callers stop the runtime when told Unanimous / when the Receiver future completes (async select loops, not under contract)",
+        ],
+        "trusted_base": ["Kani 0.68 + CBMC 6.11 (loop-free or unwinding-assertion-closed harnesses over full-domain symbolic inputs)"],
     },
 }
